@@ -1,7 +1,143 @@
-(** non-vacuity for C03's glue theorems: concrete stage verdicts meeting the hypotheses *)
-From Coq Require Import List.
-From ApiFu Require Import Pipe.PipelineModel Pipe.PipelineProofs.
+(** non-vacuity for C03: the composed model run from BYTES on a concrete schema (both encodings),
+    reaching every outcome the theorems speak about; then the round-1 glue examples. *)
+From Coq Require Import List NArith ZArith Bool String.
+From ApiFu Require Import Base.Sexp.
+From ApiFu Require Syn.Ast Vld.Ast Val.Values ExeA.ArgData ExeA.ArgArgs ExeA.ArgModel ExeA.ArgSpec ExeA.ArgHyps.
+From ApiFu Require Import Pipe.PipelineModel Pipe.PipelineProofs Pipe.Convert Pipe.Compose Pipe.SchemaAgree Pipe.ComposeProofs Pipe.ComposeCheck.
+Import ListNotations.
+Open Scope string_scope.
 
+Definition n (s : string) : bytes := Vld.Ast.bs s.
+
+(** type Query { i: Int  nn: Int!  x: Float  o: Obj  f(k: Int = 5): Int }  type Obj { i: Int }
+    directive @skip(if: Boolean!), @include(if: Boolean!) on FIELD | FRAGMENT_SPREAD | INLINE_FRAGMENT *)
+Definition vfd (t : Vld.Ast.sty) : Vld.Ast.field_def := {| Vld.Ast.f_type := t; Vld.Ast.f_args := []; Vld.Ast.f_req := [] |}.
+Definition vty (b : Vld.Ast.type_body) : Vld.Ast.type_def := {| Vld.Ast.t_req := []; Vld.Ast.t_body := b |}.
+Definition if_arg : list (Vld.Ast.name * Vld.Ast.input_def) :=
+  [(n "if", {| Vld.Ast.in_type := Vld.Ast.StNonNull (Vld.Ast.StNamed (n "Boolean")); Vld.Ast.in_default := Vld.Ast.DNone |})].
+Definition cond_dir : Vld.Ast.dir_def :=
+  {| Vld.Ast.dd_args := if_arg; Vld.Ast.dd_locs := [Vld.Ast.LField; Vld.Ast.LFragmentSpread; Vld.Ast.LInlineFragment] |}.
+
+Definition ex_VS : Vld.Ast.schema :=
+  {| Vld.Ast.s_types :=
+       [ (n "Int", vty (Vld.Ast.TScalar Vld.Ast.SInt)); (n "Float", vty (Vld.Ast.TScalar Vld.Ast.SFloat));
+         (n "String", vty (Vld.Ast.TScalar Vld.Ast.SString)); (n "Boolean", vty (Vld.Ast.TScalar Vld.Ast.SBoolean));
+         (n "Query", vty (Vld.Ast.TObject [ (n "i", vfd (Vld.Ast.StNamed (n "Int")));
+                                            (n "nn", vfd (Vld.Ast.StNonNull (Vld.Ast.StNamed (n "Int"))));
+                                            (n "x", vfd (Vld.Ast.StNamed (n "Float")));
+                                            (n "o", vfd (Vld.Ast.StNamed (n "Obj")));
+                                            (n "f", {| Vld.Ast.f_type := Vld.Ast.StNamed (n "Int");
+                                                       Vld.Ast.f_args := [(n "k", {| Vld.Ast.in_type := Vld.Ast.StNamed (n "Int"); Vld.Ast.in_default := Vld.Ast.DValue |})];
+                                                       Vld.Ast.f_req := [] |}) ] []));
+         (n "Obj", vty (Vld.Ast.TObject [ (n "i", vfd (Vld.Ast.StNamed (n "Int"))) ] [])) ];
+     Vld.Ast.s_query := n "Query"; Vld.Ast.s_mutation := None; Vld.Ast.s_subscription := None;
+     Vld.Ast.s_directives := [ (n "skip", cond_dir); (n "include", cond_dir) ];
+     Vld.Ast.s_meta := []; Vld.Ast.s_impls := [] |}.
+
+Definition ex_ES : ExeA.ArgData.schema :=
+  {| ExeA.ArgData.types :=
+       [ (n "Int", ExeA.ArgData.NScalar ExeA.ArgData.KInt); (n "Float", ExeA.ArgData.NScalar ExeA.ArgData.KFloat);
+         (n "String", ExeA.ArgData.NScalar ExeA.ArgData.KString); (n "Boolean", ExeA.ArgData.NScalar ExeA.ArgData.KBoolean);
+         (n "Query", ExeA.ArgData.NObject [ (n "i", ExeA.ArgData.StNamed (n "Int"));
+                                            (n "nn", ExeA.ArgData.StNonNull (ExeA.ArgData.StNamed (n "Int")));
+                                            (n "x", ExeA.ArgData.StNamed (n "Float"));
+                                            (n "o", ExeA.ArgData.StNamed (n "Obj"));
+                                            (n "f", ExeA.ArgData.StNamed (n "Int")) ] []);
+         (n "Obj", ExeA.ArgData.NObject [ (n "i", ExeA.ArgData.StNamed (n "Int")) ] []) ];
+     ExeA.ArgData.query := n "Query"; ExeA.ArgData.mutation := None; ExeA.ArgData.subscription := None;
+     ExeA.ArgData.s_inputs := [ (n "Boolean", Val.Values.TScalar Val.Values.KBoolean); (n "Float", Val.Values.TScalar Val.Values.KFloat);
+                                (n "Int", Val.Values.TScalar Val.Values.KInt); (n "String", Val.Values.TScalar Val.Values.KString) ];
+     ExeA.ArgData.s_argdefs := [ (n "Query", [ (n "f", [ (n "k", {| Val.Values.in_type := Val.Values.StNamed (n "Int");
+                                                                      Val.Values.in_default := Some (Val.Values.GInt 5) |}) ]) ]) ] |}.
+
+Example ex_schema_hypothesis : schema_accepted ex_ES = true.
+Proof. vm_compute. reflexivity. Qed.
+Example ex_schemas_agree : schemas_agree ex_VS ex_ES = true.
+Proof. vm_compute. reflexivity. Qed.
+
+Definition int_ (z : Z) : ExeA.ArgData.outcome := ExeA.ArgData.OLeaf (ExeA.ArgData.GInt ExeA.ArgData.IInt z).
+(** the root value: i = 7, nn resolves to nil, x = NaN, o = an Obj with i = 8 *)
+Definition ex_W : ExeA.ArgData.outcome :=
+  ExeA.ArgData.OObj (n "Query")
+    [ (n "i", int_ 7); (n "nn", ExeA.ArgData.ONil);
+      (n "x", ExeA.ArgData.OLeaf (ExeA.ArgData.GF64 ExeA.ArgData.NaN));
+      (n "o", ExeA.ArgData.OObj (n "Obj") [ (n "i", int_ 8) ]);
+      (ExeA.ArgArgs.field_key (n "f") [(n "k", Val.Values.GInt 5)], int_ 50);
+      (ExeA.ArgArgs.field_key (n "f") [(n "k", Val.Values.GInt 2)], int_ 20) ].
+
+Definition run_ex (q : string) (op : string) (raw : list (ExeA.ArgData.name * Val.Values.jval)) : presult :=
+  pipeline_model ex_VS [] ex_ES (n q) (n op) raw ex_W.
+
+(** executed with data, fragments and a variable condition included *)
+Example ex_executed :
+  run_ex "query Q($b: Boolean!) { i ...F o @include(if: $b) { i } } fragment F on Query { j: i @skip(if: false) }" ""
+         [(n "b", Val.Values.JBool true)]
+  = PExecuted (Some (ExeA.ArgData.JObj [ (n "i", ExeA.ArgData.JInt 7); (n "j", ExeA.ArgData.JInt 7);
+                                         (n "o", ExeA.ArgData.JObj [ (n "i", ExeA.ArgData.JInt 8) ]) ])) [].
+Proof. vm_compute. reflexivity. Qed.
+
+(** a NaN result never reaches the data: null and an error instead (defect 7 repaired) *)
+Example ex_nan_is_error :
+  exists e, run_ex "{ i x }" "" []
+            = PExecuted (Some (ExeA.ArgData.JObj [ (n "i", ExeA.ArgData.JInt 7); (n "x", ExeA.ArgData.JNull) ])) [e].
+Proof. eexists. vm_compute. reflexivity. Qed.
+
+(** a null at a non-null root field: no data, one error *)
+Example ex_null_data : exists e, run_ex "{ i nn }" "" [] = PExecuted None [e].
+Proof. eexists. vm_compute. reflexivity. Qed.
+
+(** syntax error: the text ends inside the selection set; unknown field; unknown operation name;
+    variable coercion refused *)
+Example ex_syntax : exists e, run_ex "{ i o { i }" "" [] = PSyntax e [].
+Proof. eexists. vm_compute. reflexivity. Qed.
+Example ex_bytes_garbage : exists e es, pipeline_model ex_VS [] ex_ES [255; 0; 34; 123]%N [] [] ex_W = PSyntax e es.
+Proof. eexists. eexists. vm_compute. reflexivity. Qed.
+Example ex_invalid : exists e, run_ex "{ i zz }" "" [] = PInvalid e [].
+Proof. eexists. vm_compute. reflexivity. Qed.
+Example ex_leaf_selection_invalid : exists e es, run_ex "{ i { i } o }" "" [] = PInvalid e es.
+Proof. eexists. eexists. vm_compute. reflexivity. Qed.
+Example ex_no_operation : exists e, run_ex "query A { i } query B { nn }" "C" [] = PExecuted None [e].
+Proof. eexists. vm_compute. reflexivity. Qed.
+(** a required variable without value, a value of the wrong kind: CoerceVariableValues refuses *)
+Example ex_vars_rejected : exists e, run_ex "query A($b: Boolean!) { i @skip(if: $b) }" "" [] = PExecuted None [e].
+Proof. eexists. vm_compute. reflexivity. Qed.
+Example ex_vars_rejected_kind :
+  exists e, run_ex "query A($b: Boolean!) { i @skip(if: $b) }" "" [(n "b", Val.Values.JStr (n "yes"))] = PExecuted None [e].
+Proof. eexists. vm_compute. reflexivity. Qed.
+
+(** field arguments: a literal, the default, a variable (coerced from a JSON number) *)
+Example ex_arguments :
+  run_ex "query A($k: Int) { a: f(k: 2) b: f c: f(k: $k) }" "" [(n "k", Val.Values.JNum (Val.Values.F64 2 0))]
+  = PExecuted (Some (ExeA.ArgData.JObj [ (n "a", ExeA.ArgData.JInt 20); (n "b", ExeA.ArgData.JInt 50); (n "c", ExeA.ArgData.JInt 20) ])) [].
+Proof. vm_compute. reflexivity. Qed.
+
+(** a nullable variable with a default, explicitly null: outside C01's hypotheses, still answered *)
+Example ex_unevaluable :
+  exists r, run_ex "query A($b: Boolean = true) { i @skip(if: $b) nn }" "" [(n "b", Val.Values.JNull)] = PUnevaluable r.
+Proof. eexists. vm_compute. reflexivity. Qed.
+
+(** the hypothesis of C03_pipeline_total is satisfiable, and its conclusion is the first disjunct *)
+Example ex_total_instance :
+  is_response (run_ex "{ i o { i } }" "" []) = true /\
+  data_or_errors_p (run_ex "{ i nn }" "" []) = true /\
+  serialisable_p (run_ex "{ i x }" "" []) = true.
+Proof. vm_compute. auto. Qed.
+
+(** the stage-contract check is a real check: the executor encoding of a DIFFERENT schema (Obj
+    without its field) makes the validated document fail [doc_ok] *)
+Definition ex_ES_wrong : ExeA.ArgData.schema :=
+  {| ExeA.ArgData.types :=
+       [ (n "Int", ExeA.ArgData.NScalar ExeA.ArgData.KInt);
+         (n "Query", ExeA.ArgData.NObject [ (n "i", ExeA.ArgData.StNamed (n "Int")); (n "o", ExeA.ArgData.StNamed (n "Obj")) ] []);
+         (n "Obj", ExeA.ArgData.NObject [] []) ];
+     ExeA.ArgData.query := n "Query"; ExeA.ArgData.mutation := None; ExeA.ArgData.subscription := None;
+     ExeA.ArgData.s_inputs := []; ExeA.ArgData.s_argdefs := [] |}.
+Example ex_contract_broken :
+  pipeline_model ex_VS [] ex_ES_wrong (n "{ o { i } }") [] [] ex_W = PContractBroken CDocOk /\
+  schemas_agree ex_VS ex_ES_wrong = false.
+Proof. vm_compute. auto. Qed.
+
+(** ** round 1: the glue over stage verdicts *)
 Example executed_with_field_error :
   no_crash (Returned 0 : parse_out) /\ no_crash (Returned 0 : validate_out) /\
   no_crash (Returned (true, 1) : exec_out) /\ exec_contract (Returned (true, 1)) /\
@@ -11,3 +147,18 @@ Proof. repeat split. Qed.
 
 Example contract_excludes_silent_null : ~ exec_contract (Returned (true, 0)).
 Proof. intro H; exact H. Qed.
+
+(** the hypotheses of C03_validated_type_conditions_composite are satisfiable (an accepted text
+    with fragment and inline type conditions), and a text with a type condition on a scalar is
+    rejected by the front half before the executor could panic on it *)
+Example ex_conds_instance :
+  exists d o,
+    parse_and_validate_bytes ex_VS [] (n "{ ...F o { ... on Obj { i } } } fragment F on Query { i }") = FAccepted d /\
+    ExeA.ArgModel.get_operation (exe_of_syn d) [] = ExeA.ArgModel.GOp o /\
+    ExeA.ArgHyps.dirs_evaluable (ExeA.ArgData.doc_of (exe_of_syn d) o []) [] = true /\
+    ExeA.ArgSpec.conds_ok ex_ES (ExeA.ArgData.doc_of (exe_of_syn d) o []) [] = true.
+Proof. eexists. eexists. split; [vm_compute; reflexivity|]. split; [vm_compute; reflexivity|]. split; vm_compute; reflexivity. Qed.
+
+Example ex_scalar_condition_rejected :
+  exists e es, run_ex "{ i ... on Int { i } }" "" [] = PInvalid e es.
+Proof. eexists. eexists. vm_compute. reflexivity. Qed.
